@@ -4,6 +4,7 @@
    the XOAUTH2 initial client response, RFC 5802 SCRAM). *)
 From Coq Require Import String ZArith.
 From Verif Require Export Bytes Base64 Scram AuthLoop.
+From VerifGen Require Import Gen.
 Open Scope N_scope.
 
 (* ServerInfo as the mechanisms read it *)
@@ -27,17 +28,21 @@ Definition plain_mech (a : plain_id) (si : srvinfo) : mech unit :=
 (* ---- LOGIN (auth_login.go): state = respStep ---- *)
 Record login_id := { lg_user : bytes; lg_pass : bytes; lg_host : bytes; lg_allow_unenc : bool }.
 
-Definition login_mech (a : login_id) (si : srvinfo) : mech N :=
+(* [start_resets]: Start assigns a.respStep = 0 (read from the source, Gen.login_start_resets_step): a loginAuth value that
+   is used for a second exchange begins again with the user name *)
+Definition login_mech_cfg (start_resets : bool) (a : login_id) (si : srvinfo) : mech N :=
   {| m_start := fun s =>
        if negb (lg_allow_unenc a) && negb (si_tls si) && negb (is_localhost (si_name si)) then (s, None)
        else if negb (bytes_eqb (si_name si) (lg_host a)) then (s, None)
-       else (0, Some (bs "LOGIN", None));
+       else ((if start_resets then 0 else s), Some (bs "LOGIN", None));
      m_next := fun s _ more =>
        if more then
          (if s =? 0 then (1, Some (Some (lg_user a)))
           else if s =? 1 then (2, Some (Some (lg_pass a)))
           else (s, None))
        else (s, Some None) |}.
+
+Definition login_mech : login_id -> srvinfo -> mech N := login_mech_cfg Gen.login_start_resets_step.
 
 (* ---- CRAM-MD5 (auth_cram_md5.go) ---- *)
 Definition hexdigit (n : N) : N := if n <? 10 then 48 + n else 87 + n.
